@@ -57,7 +57,7 @@ def gen_cases(ctx):
         opts = dict(opts, crosspkg=0.12)
         s = g.top("T", **opts)
         if r > 0.93:
-            # generic struct with a constraint that is not a plain identifier (finding region F_tparamNonIdent)
+            # generic struct with a constraint that is not a plain identifier (repaired by f987a47; asserted)
             s["tparams"] = ctx.rng.choice([[(["K"], "cmp.Ordered")], [(["K"], "~int | ~string"), (["V"], "any")],
                                            [(["V"], "any"), (["S"], "fmt.Stringer")]])
         cases.append(make_case("n%d" % i, s))
@@ -92,11 +92,6 @@ def run_cases(ctx, cases):
             d = m[side]
             d["exit"] = "0"
             d["compile"] = "ok"
-            if side == "model" and m["region"] == "F_tparamNonIdent":
-                # the model mirrors the wrong type-parameter list; the consequence (compile error) replaces the run-time lines
-                tp = d.get("tparams", "")
-                d.clear()
-                d.update({"exit": "0", "compile": "error", "tparams": tp})
     return impl, model
 
 
